@@ -1,0 +1,81 @@
+/*
+ * Verification hooks (cargo feature `verif-hooks`, off by default).
+ *
+ * When the environment variable BREADLOG_VERIF_TRACE names a file, one JSON
+ * line per parsed file and pass is appended to it, describing the log
+ * reference entries the parser produced. Nothing here changes behaviour.
+ */
+
+use crate::parser::LogRefEntry;
+use std::io::Write;
+
+fn json_escape(text: &str) -> String
+{
+    let mut out = String::with_capacity(text.len() + 2);
+
+    for c in text.chars()
+    {
+        match c
+        {
+            '"' => out.push_str("\\\""),
+            '\\' => out.push_str("\\\\"),
+            c if (c as u32) < 0x20 => out.push_str(&format!("\\u{:04x}", c as u32)),
+            c => out.push(c),
+        }
+    }
+
+    out
+}
+
+/// Append the parser's view of one file to the trace file, if tracing is on.
+pub fn trace_entries(pass: &str, path: &str, code_len: usize, entries: &[LogRefEntry])
+{
+    let trace_path = match std::env::var_os("BREADLOG_VERIF_TRACE")
+    {
+        Some(p) => p,
+        None => return,
+    };
+
+    let mut line = format!(
+        "{{\"pass\":\"{}\",\"path\":\"{}\",\"len\":{},\"entries\":[",
+        json_escape(pass),
+        json_escape(path),
+        code_len
+    );
+
+    for (i, entry) in entries.iter().enumerate()
+    {
+        if i > 0
+        {
+            line.push(',');
+        }
+
+        let reference = match entry.reference()
+        {
+            Some(r) => r.to_string(),
+            None => "null".to_string(),
+        };
+
+        line.push_str(&format!(
+            "{{\"offset\":{},\"line\":{},\"column\":{},\"reference\":{},\"kind\":\"{:?}\",\"usable\":{},\"exists\":{},\"token\":\"{}\"}}",
+            entry.position().character(),
+            entry.position().line(),
+            entry.position().column(),
+            reference,
+            entry.kind(),
+            entry.usable_reference_position(),
+            entry.exists(),
+            json_escape(&entry.insertable_reference_string(0)),
+        ));
+    }
+
+    line.push_str("]}\n");
+
+    if let Ok(mut f) = std::fs::OpenOptions::new()
+        .create(true)
+        .append(true)
+        .open(trace_path)
+    {
+        let _ = f.write_all(line.as_bytes());
+    }
+}
